@@ -197,6 +197,8 @@ def build_listener(node, ls, stations):
     if t == "anomaly":
         return L.AnomalyListener(ls["value"], anomaly=ls.get("anomaly", "true"), frame=ls.get("frame"))
     if t == "light":
+        if ls.get("frame"):
+            return L.LightListener(ls.get("ltype", "umbra"), frame=ls["frame"])
         return L.LightListener(ls.get("ltype", "umbra"))
     if t == "terminator":
         return L.TerminatorListener()
